@@ -50,6 +50,8 @@ def graph_strategy(tier):
         st.tuples(st.just('unlink'), idx, idx),
         st.tuples(st.just('upd'), idx),
         st.tuples(st.just('del'), idx),
+        # an object that is garbage is stored again (through a reference the application still holds), not re-linked
+        st.tuples(st.just('updg'), idx),
     ).map(list)
     txn = st.tuples(st.just('gtxn'), st.lists(rec, min_size=1, max_size=3)).map(list)
     undo = st.tuples(st.just('gundo'), st.lists(st.integers(0, 5), min_size=1, max_size=2)).map(list)
@@ -331,6 +333,11 @@ class GraphRunner(programs.StorageRunner):
             elif k == 'upd':
                 a_ = reach[r[1] % len(reach)]
                 new_refs[a_] = list(refs(a_))
+            elif k == 'updg' and garbage and not self.no_del:
+                a_ = garbage[r[1] % len(garbage)]
+                if a_ not in deleted and not any(ref not in state for ref in refs_of(state[a_][1])[0]):
+                    new_refs[a_] = list(refs(a_))
+                    self.labels.add('garbage-object-stored-again')
             elif k == 'del' and self.kind.startswith('fs') and garbage and not self.no_del:
                 # deleteObject is the external garbage collector's API: only unreferenced objects
                 g = garbage[r[1] % len(garbage)]
